@@ -488,7 +488,7 @@ fn c03_walk(idx: usize, ctx: &Ctx, rpt: &mut Report) {
             .find_map(|a| c09_key(Some(&a)))
             .or_else(|| {
                 // Discarding the walk root because the negation matches the empty path.
-                if missing.iter().all(|m| Path::new(m).starts_with(&root)) && is_match("") {
+                if is_match("") {
                     Some("matches-empty-path-but-not-its-children")
                 }
                 else {
@@ -522,7 +522,7 @@ fn c03_strings(expr: &str, idx: usize, ctx: &Ctx, rpt: &mut Report) {
         None => return,
     };
     let (is_match, discards_tree) = match &stack.models[0] {
-        LayerModel::Not { is_match, discards_tree } => (is_match, discards_tree),
+        LayerModel::Not { is_match, discards_tree, .. } => (is_match, discards_tree),
         _ => return,
     };
     let names = ["x", "a", ".k", "金", "keep.txt", "b"];
@@ -672,6 +672,15 @@ fn c13(idx: usize, ctx: &Ctx, rpt: &mut Report) {
     };
     rpt.evaluations += 1;
     let wit = || stack_witness(&case, &case.layers);
+    if let Some(c) = ran.sim.tree_decision_mismatches.first() {
+        rpt.disagreement(
+            &ctx.known,
+            "negation-tree-discard-decision-differs-from-matching-an-exhaustive-alternative",
+            None,
+            json!({"case": wit(), "candidate": c}),
+        );
+        return;
+    }
     // (a) Nothing beneath an effectively cancelled directory is read afterwards.
     let mut current: Option<(PathBuf, bool)> = None;
     let mut cancelled: Vec<PathBuf> = Vec::new();
